@@ -213,7 +213,9 @@ def setup_collect(eng):
                 'for var in node[1]#2'):
         eng.loop_specs[(CI, hdr)] = generic_node_loop('child')
     # iterated object is known not to be a leaf here: elements are nodes
-    for hdr in ('for constr in cmd[2]', 'for num in node[2:]'):
+    # ('for sig in cmd[1]' is guarded by 'not cmd[1].is_leaf()')
+    for hdr in ('for constr in cmd[2]', 'for num in node[2:]',
+                'for sig in cmd[1]'):
         eng.loop_specs[(CI, hdr)] = LoopSpec(
             inv=lambda e, env_: True,
             elem=lambda e, env_, p: nm.lazy_node(e, p, 'child'))
